@@ -33,3 +33,14 @@ pub proof fn lemma_tz_fits(s: bool, w: int, a: int, b: int)
         }
     }
 }
+// Euclidean remainder facts: 0 <= er < |b|, er == a mod 1 == 0 for b == -1, and er == a % b for non-negative operands
+pub proof fn lemma_er_facts(s: bool, w: int, a: int, b: int)
+    requires w >= 1, fits(s, w, a), fits(s, w, b), b != 0
+    ensures 0 <= er(a, b) < abs_(b), fits(s, w, er(a, b)), (b == -1 || b == 1) ==> er(a, b) == 0,
+            (a >= 0 && b > 0) ==> er(a, b) == a % b
+{
+    let bb = abs_(b);
+    lemma_mod_bound(a, bb);
+    lemma_p2_pos(w); lemma_p2_pos(w - 1); lemma_p2_step(w);
+    if bb == 1 { lemma_mod_bound(a, 1); }
+}
